@@ -570,6 +570,11 @@ func (g *GEM) litHoleOK(p Part) (bool, string) {
 			}
 			return false, "html.EscapeString(" + p.Src + ") of something that is not a parser name field: a backslash or newline would survive into the Go string literal"
 		}
+		// a function of the package that returns the whitespace to write (parser.TrailingSpace): every path returns a
+		// constant without a line break, or a recorded value on a path that excluded the line-break constant
+		if ok, why := g.whitespaceFuncOK(p.Fn); ok {
+			return true, why
+		}
 		return false, "result of " + p.Fn + " is placed into a Go string literal without escapeQuotes"
 	case PData:
 		if ok, why := g.whitespaceEnumOK(p); ok {
@@ -771,4 +776,55 @@ func gMap(c *Ctx, rule string) {
 	}
 	c.count("sourcemap_add_sites_on_paths", nadd)
 	c.floor(rule, 40)
+}
+
+// whitespaceFuncOK: see litHoleOK.
+func (g *GEM) whitespaceFuncOK(full string) (bool, string) {
+	for _, fd := range allFuncDecls(g.pkg) {
+		fn, _ := g.info.Defs[fd.Name].(*types.Func)
+		if fn == nil || fullName(fn) != full || fd.Body == nil || fd.Type.Results == nil || len(fd.Type.Results.List) != 1 {
+			continue
+		}
+		nt, ok := g.info.TypeOf(fd.Type.Results.List[0].Type).(*types.Named)
+		if !ok || nt.Obj().Pkg() == nil || nt.Obj().Pkg().Path() != pkgParser || nt.Obj().Name() != "TrailingSpace" {
+			return false, ""
+		}
+		den := &denum{info: g.info, pkg: g.pkg.Types, inits: map[types.Object]ast.Expr{}, limit: 5000, opaqueLoops: true}
+		den.finish(den.run(fd.Body.List, []dstate{{env: map[types.Object]ast.Expr{}}}))
+		if den.undecided != "" || len(den.paths) == 0 {
+			return false, ""
+		}
+		for _, pth := range den.paths {
+			if pth.Ret == nil || len(pth.Ret.Results) != 1 {
+				return false, ""
+			}
+			r := pth.Ret.Results[0]
+			if tv, ok := g.info.Types[r]; ok && tv.Value != nil {
+				if strings.Contains(tv.Value.ExactString(), `\n`) {
+					return false, ""
+				}
+				continue
+			}
+			rtxt := types.ExprString(den.subst(r, pth.Env, 0))
+			excluded := false
+			for _, pc := range pth.Conds {
+				be, ok := ast.Unparen(pc.Expr).(*ast.BinaryExpr)
+				if !ok || (be.Op != token.EQL && be.Op != token.NEQ) {
+					continue
+				}
+				tv, ok := g.info.Types[be.Y]
+				if !ok || tv.Value == nil || !strings.Contains(tv.Value.ExactString(), `\n`) {
+					continue
+				}
+				if types.ExprString(den.subst(be.X, pth.Env, 0)) == rtxt && pc.Val == (be.Op == token.NEQ) {
+					excluded = true
+				}
+			}
+			if !excluded {
+				return false, ""
+			}
+		}
+		return true, "whitespace-only value; no path returns the newline constant"
+	}
+	return false, ""
 }
